@@ -240,6 +240,12 @@ func (it *TxnIterator) advance() {
 			}
 		}
 		if !it.materializeEntry(entry, cf, userKey, version) {
+			if !it.opt.AllVersions && !it.opt.Reverse {
+				// Forward scans see the newest visible version first: if it is a
+				// tombstone (or expired) the key is not live in this snapshot, so its
+				// older versions must be skipped too.
+				it.lastKey = append(it.lastKey[:0], userKey...)
+			}
 			it.iitr.Next()
 			continue
 		}
